@@ -987,6 +987,7 @@ def sec_pool(ck, e, rng):
     nseq = ck.n(8, 60)
     nsteps = ck.n(7, 12)
     total = 0
+    noverflow = 0
     for sq in range(nseq):
         x = pts(rng, 5)
         pool = []        # (object, reference function, description)
@@ -994,7 +995,8 @@ def sec_pool(ck, e, rng):
         def add_callable():
             k = int(rng.integers(0, 3))
             c = float(np.round(rng.uniform(0.5, 2.0), 3))
-            fn = [lambda q, c=c: np.asarray(q) * c + 1.0, lambda q, c=c: np.asarray(q) ** 3 * c * 1e-2,
+            # non-linear / non-commuting maps of bounded growth (compositions of compositions nest exponentially deep)
+            fn = [lambda q, c=c: 20.0 * np.cos(np.asarray(q) * 0.1 * c) + 1.0, lambda q, c=c: 15.0 * np.tanh(np.asarray(q) * 0.05) ** 3 * c,
                   lambda q, c=c: np.asarray(q)[:, ::-1] - c][k]
             pool.append((Transform(fn), fn, "callable%d(%g)" % (k, c)))
 
@@ -1042,13 +1044,20 @@ def sec_pool(ck, e, rng):
             devsum += m2v_dev(e)
             pool.append((c, lambda q, ra=ra, rb=rb: ra(rb(q)), "(%s o %s)" % (da, db)))
             bad = None
+            overflow = False
             for k, (obj, ref, d) in enumerate(pool):
                 e.pa_unnormalised = 0
                 want = ref(x)
+                if not np.all(np.isfinite(want)) or float(np.max(np.abs(want))) > 1e12:
+                    overflow = True          # reference itself out of range: nothing to compare (sequence ends)
+                    break
                 got = obj.apply(x)
                 if not close(got, want, 1e-8):
                     bad = (k, d, maxerr(got, want), max(1.0, float(np.max(np.abs(want)))), e.pa_unnormalised)
                     break
+            if overflow:
+                noverflow += 1
+                break
             if bad is not None:
                 k, d, err, sc, far = bad
                 replay = {"initial": [dd for _, _, dd in pool[:len(base)]], "steps": log, "wrong_member": k, "member": d,
@@ -1065,7 +1074,7 @@ def sec_pool(ck, e, rng):
                               "after step %d (%s), the earlier transform pool[%d] = %s no longer maps points as before (error %g)"
                               % (st, log[-1], k, d, err), replay)
                 break
-    ck.section("pool", sequences=nseq, compose_steps=total)
+    ck.section("pool", sequences=nseq, compose_steps=total, sequences_ended_by_overflow=noverflow)
 
 
 def sec_generic(ck, e, rng):
